@@ -580,6 +580,9 @@ def run(model, rep, tier):
     check_operators(model, rep, oracle)
     check_algebra(model, rep)
     check_parsing(model, rep, oracle)
+    rep.rule('R20.10', 'every name loaded in SI.py and unit.py resolves (symtable)')
+    from rules import names as _names
+    _names.check(model, rep, 'R20.10', ('SI', 'unit'), 60)
     rep.require('R20.1', 80)
     rep.require('R20.3', 30)
     rep.require('R20.4', 12)
